@@ -914,3 +914,38 @@ def check_chain(ctx, fn, prov, label, steps, final_ok=True, rule="R-MUST"):
                     "every Ok exit is dominated by the Ok edge of %s" % steps[-1][0],
                     "%s can return Ok without %s having succeeded" % (fn.path, steps[-1][0]))
     return calls
+
+
+def variant_guards(fn, site_bb, prov=None):
+    """[(subject expression, variant name)] for every enum-discriminant switch one of whose edges must be
+    taken to reach site_bb."""
+    prov = prov or Prov(fn)
+    out = []
+    for bi, b in enumerate(fn.blocks):
+        if b["cleanup"]:
+            continue
+        t = b["term"]
+        if t["k"] != "switch":
+            continue
+        dp = op_place(t["discr"])
+        if not dp or dp["p"]:
+            continue
+        dstmt = None
+        for s in b["stmts"]:
+            if "lhs" in s and s["lhs"]["l"] == dp["l"] and s["rv"]["k"] == "discr":
+                dstmt = s["rv"]
+        if dstmt is None:
+            continue
+        names = dstmt["vars"]
+        listed = set()
+        for v, tb in t["targets"]:
+            nm = names.get(v, v)
+            listed.add(nm)
+            others = [x for _, x in t["targets"] if x != tb] + [t["otherwise"]]
+            if tb not in others[:-1] and tb != t["otherwise"] and edge_dominates(fn, bi, tb, None, site_bb):
+                out.append((prov.place(dstmt["place"]), nm))
+        rest = [n for n in names.values() if n not in listed]
+        if len(rest) == 1 and not _is_unreachable(fn, t["otherwise"]) and t["otherwise"] not in [x for _, x in t["targets"]]:
+            if edge_dominates(fn, bi, t["otherwise"], None, site_bb):
+                out.append((prov.place(dstmt["place"]), rest[0]))
+    return out
